@@ -70,6 +70,7 @@ theorem exHolds : Env.HoldsProblem exP Cov.runExMat Cov.runExCov [] where
     rcases hi2 with rfl | rfl | rfl <;> rfl
 
 theorem exRowsOK : RowsOK exP := by
+  apply RowsOK.of_nodup
   intro i hi
   have hi' : i < 3 := hi
   have hi2 : i = 0 ∨ i = 1 ∨ i = 2 := by omega
